@@ -418,7 +418,20 @@ def rule_indicator(repo: Repo) -> List[Ob]:
     # (c) refusals
     guards = []
     for g, _, _ in scopes:
-        guards += [src(t.ast) for t, _ in cfg_of(g.node).raise_guards()]
+        gd = Defs(g.node, g.params()[0] if g.params() else None)
+        for t, _ in cfg_of(g.node).raise_guards():
+            text = src(t.ast)
+            # what the names of the test stand for: aliases, and the bodies of same-class helpers they were computed by
+            for nm in [x for x in ast.walk(t.ast) if isinstance(x, ast.Name)]:
+                r = resolve_alias(nm, gd)
+                if r is not nm:
+                    text += " " + src(r)
+                    for hc in ast.walk(r):
+                        if isinstance(hc, ast.Call) and isinstance(hc.func, ast.Attribute) and isinstance(hc.func.value, ast.Name) and hc.func.value.id == selfn and m.cls is not None:
+                            hm = m.cls.find_method(hc.func.attr)
+                            if hm is not None:
+                                text += " " + src(hm.node)
+            guards.append(text)
     okg = any("is_normalized" in t for t in guards) and any("Finite" in t for t in guards)
     obs.append(Ob(R, f"{rp}::Atom.to_arithm::preconditions", rp, m.node.lineno, m.qualname, okg,
                   "un-normalised atoms and non-finite variables are refused" if okg else "to_arithm no longer refuses un-normalised atoms / non-finite variables"))
